@@ -86,5 +86,45 @@ fn main() {
     if seen.iter().any(|n| *n != 3) {
         tool_error("not every literal was exercised by tpl!, evt! and emit!");
     }
+    // format-flag sites: args[3] = FMTSITE lines {"flags","kind":"pad"|"std","ty","src","raw","expect"}
+    let mut fexpect: Vec<Value> = Vec::new();
+    if let Some(fp) = args.get(3) {
+        for_each_case(fp, |_, c| fexpect.push(c.clone()));
+    }
+    rep.cases += fexpect.len() as u64;
+    let mut fseen = vec![0u32; fexpect.len()];
+    let mut chkf = |i: usize, how: &str, tpl: &Template, got: String, oracle: String| {
+        if i >= fexpect.len() {
+            tool_error("generated format-flag sites and FMTSITE lines are out of step");
+        }
+        fseen[i] += 1;
+        let e = &fexpect[i];
+        let case = json!({"macro": how, "fmt_site": e});
+        // "pad": the expected text is the specification's; std must agree with it (else the
+        // specification's Pad operator is wrong: a tool error, not a verdict).  "std": format!.
+        let want = if e["kind"] == "pad" {
+            let w = e["expect"].as_str().unwrap().to_string();
+            if w != oracle {
+                tool_error(&format!("spec Pad {:?} differs from std {:?} for flags {:?}", w, oracle, e["flags"]));
+            }
+            w
+        } else {
+            oracle
+        };
+        rep.checks += 3;
+        if got != want {
+            rep.mismatch("macro-fmt-render-differs", &case, json!({"want": want, "got": got}));
+        }
+        if tpl.to_string() != e["raw"].as_str().unwrap() {
+            rep.mismatch("macro-raw-render-differs", &case, json!({"want": e["raw"], "got": tpl.to_string()}));
+        }
+        if !tpl.parts().any(|p| p.label().is_some() && p.formatter().is_some()) {
+            rep.mismatch("macro-fmt-hole-without-formatter", &case, json!({}));
+        }
+    };
+    gen::run_fmt(&rt, &mut chkf, &|| LAST.with(|l| l.borrow_mut().take()));
+    if fseen.iter().any(|n| *n != 3) {
+        tool_error("not every format-flag site was exercised by tpl!, evt! and emit!");
+    }
     rep.write(out);
 }
